@@ -68,6 +68,12 @@ pub fn eval_hist(a: &[&str]) -> Option<String> {
             "setm" => { let i: usize = f[1].parse().ok()?; s.inner_mut().as_mut_slice()[i] = f64::from_bits(u64::from_str_radix(f[2], 16).ok()?); "-".into() }
             "norm" => { s.normalize(); "-".into() }
             "clone" => { s = s.clone(); "-".into() }
+            // the object is overwritten in place from another spectrum of another shape (`Clone::clone_from`)
+            "clonefrom" => {
+                let sh = parse_nats(f[1]); let k: usize = f[2].parse().ok()?; let n: usize = sh.iter().product();
+                let other = Scs::new((0..n).map(|i| (1 + (i * k) % 17) as f64).collect::<Vec<_>>(), sh).ok()?;
+                s.clone_from(&other); "-".into()
+            }
             "fold" => render(&s.fold().into_spectrum(f64::from_bits(u64::from_str_radix(f[1], 16).ok()?))),
             "refold" => { s = s.fold().into_spectrum(0.0); "-".into() }
             "marg" | "remarg" => match s.marginalize(&parse_nats(f[1]).into_iter().map(Axis).collect::<Vec<_>>()) {
@@ -101,7 +107,12 @@ pub fn gen_hist(rng: &mut Rng, n: usize, dmax: usize, out: &mut Vec<String>) {
                 0 | 1 => ops.push("sum".into()),
                 2 | 3 | 4 => ops.push(format!("stat:{k}")),
                 5 | 6 => { let rc = rng.below(curlen as u64) as usize; let cell = *rng.pick(&[0usize, curlen - 1, rc]); ops.push(format!("{}:{cell}:{:016x}", if rng.chance(2, 3) { "set" } else { "setm" }, (rng.range(0, 5000) as f64).to_bits())); }
-                7 => ops.push("clone".into()),
+                7 => if rng.chance(1, 2) { ops.push("clone".into()); } else {
+                    let nd = cur.len();
+                    let mut sh = shapes::random_shape(rng, nd, nd, 2, if nd <= 2 { 7 } else { 4 }, 200);
+                    if sh == cur && nd > 1 && sh[0] != sh[1] { sh.swap(0, 1); }
+                    ops.push(format!("clonefrom:{}:{}", nats(&sh), 1 + rng.below(11))); cur = sh;
+                },
                 8 => ops.push(format!("fold:{:016x}", [0.0f64, -1.0, f64::NAN][rng.below(3) as usize].to_bits())),
                 9 => if cur.len() > 1 { let ax = rng.below(cur.len() as u64) as usize; if rng.chance(1, 3) { ops.push(format!("remarg:{ax}")); cur.remove(ax); } else { ops.push(format!("marg:{ax}")); } } else { ops.push("sum".into()); },
                 10 => { let t: Vec<usize> = cur.iter().map(|v| rng.range(1, *v as u64) as usize).collect(); if rng.chance(1, 3) { ops.push(format!("reproj:{}", nats(&t))); cur = t; } else { ops.push(format!("proj:{}", nats(&t))); } }
@@ -306,7 +317,12 @@ pub fn gen_c06(ctx: &Ctx, rng: &mut Rng, out: &mut Vec<String>) {
         for p in 0..npops { if !assign.iter().any(|a| *a == Some(p)) { if let Some(slot) = assign.iter().position(|a| a.is_none()).or(Some(p % ncols)) { assign[slot] = Some(p); } } }
         let nrec = g.rng.range(1, if t { 200 } else { 60 }) as usize;
         let mut recs = Vec::new();
-        for r in 0..nrec { recs.push(("chr1".to_string(), 10 + r, crate::creategen::record(&mut g, &assign, [88, 8, 4, 0], false, true))); }
+        // two thirds of the call sets: positions repeat (split multiallelic sites, a SNP next to an indel) and the second contig starts at the
+        // position where the first one ended — every record is a site of its own
+        for r in 0..nrec {
+            let (contig, pos) = if i % 3 == 0 { ("chr1", 10 + r) } else { (if 2 * r < nrec { "chr1" } else { "chr2" }, 10 + ((r + if 2 * r < nrec { 0 } else { nrec % 2 + 1 }) / 2) % 9) };
+            recs.push((contig.to_string(), pos, crate::creategen::record(&mut g, &assign, [88, 8, 4, 0], false, true)));
+        }
         let order: Vec<usize> = { let mut o: Vec<usize> = (0..ncols).filter(|c| assign[*c].is_some()).collect(); g.rng.shuffle(&mut o); o };
         // one population holding every column: no sample list at all (all samples pooled), as often as a list
         let pooled = npops == 1 && assign.iter().all(|a| a.is_some()) && i % 2 == 0;
